@@ -80,7 +80,10 @@ fn ulps(x: f64, k: i32) -> f64 {
 /// real exponent from stratum material
 pub fn real_exponent(es: u8, en: i32, eu: f64) -> f64 {
     let k = [0, 1, -1, 2, -2, 4, -4][en.rem_euclid(7) as usize];
-    match es % 10 {
+    match es % 12 {
+        // huge exponents 10^3 .. 10^300 (the caller clamps to the float type); stratum 10 is evaluated at
+        // a fixed base for which the power underflows (all parts are 0 then), stratum 11 at a base ~ 1
+        10 | 11 => 10f64.powf(3.0 + 297.0 * eu) * if en & 1 == 0 { 1.0 } else { -1.0 },
         0 => {
             // 0 and its neighbourhood
             [0.0, f64::EPSILON, -f64::EPSILON, 5e-324, 1e-300][en.rem_euclid(5) as usize]
@@ -139,11 +142,28 @@ impl<'a> TyVisitor for V<'a> {
                 }
             }
             Kind::Powf => {
-                let n = real_exponent(case.es, case.en, case.eu);
+                let mut n = real_exponent(case.es, case.en, case.eu);
+                if is32 && n.abs() > 1e37 {
+                    // huge exponents: 10^3 .. 10^37 for f32
+                    n = n.signum() * 10f64.powf(3.0 + 34.0 * case.eu);
+                }
                 let n = if is32 { n as f32 as f64 } else { n };
                 x0 = base_for(n);
+                if case.es % 12 == 10 {
+                    // a base whose power underflows: below 1 for positive, above 1 for negative exponents
+                    let b = [0.5, 0.9, 1e-3, 0.999][(case.en.rem_euclid(8) / 2) as usize];
+                    x0 = round_to::<T::F>(if n > 0.0 { b } else { 1.0 / b });
+                }
+                if case.es % 12 >= 10 {
+                    // the Taylor coefficients C(n,k) x^(n-k), k <= order, must themselves be representable
+                    let d = lay.alg().depth() as f64;
+                    let lg = d * n.abs().log10() + (n - d) * x0.log10();
+                    if !(lg < if is32 { 34.0 } else { 290.0 }) {
+                        return Verdict::Trivial("derivative coefficient of the power not representable");
+                    }
+                }
                 ops.push(Op::Powf(0, n));
-                class = format!("powf:stratum{}", case.es % 10);
+                class = format!("powf:stratum{}", case.es % 12);
             }
             Kind::Powd => {
                 x0 = round_to::<T::F>((t / 8.0).exp());
@@ -300,7 +320,7 @@ impl Property for C09 {
         if case.ty >= TYPES.len() || case.parts.is_empty() || case.parts2.is_empty() || case.pres.is_empty() || case.zero.is_empty() || !case.bt.is_finite() || !case.eu.is_finite() || !case.yr.is_finite() {
             return Verdict::Trivial("malformed case");
         }
-        let dims = [case.dims.0 as usize, case.dims.1 as usize];
+        let dims = [case.dims.0 as usize % 7, case.dims.1 as usize % 7];
         dispatch(case.ty, &dims, V { case, st })
     }
     fn fixed_cases() -> Vec<Case> {
@@ -332,7 +352,7 @@ impl Property for C09 {
         }
     }
     fn rule() -> String {
-        "generated: (type, kind in {powi, powf, powd, 4 relation templates}, exponent from strata: powi -10..10, the special cases 0,1,2,3, the i32-overflow thresholds of n(n-1) (46341+-2) and n(n-1)(n-2) (1291+-2), +-2^k up to 2^30, random up to 2^30; powf 0, 1, 2 each +-{1,2,4} ulp, 2 +- fractions of epsilon, +-eps, denormal, negative, non-integer, integer-valued, 3 +- 1e-9, large up to +-300, half-integers; base x = +-exp(t/n) with t in [-30,30] so that x^n stays representable; negative bases with integer exponents; powd with an arbitrary dual exponent). Oracle: generalized binomial Taylor data t_k = C(n,k) x^(n-k) in the reference algebra (powd: exp(y ln x)) with the rounding bound of the library's x^(n-3) x x x scheme and |n| units for repeated squaring; relation templates additionally compare the library results with each other (tolerance 32 u (e_a+e_b)). Non-trivial: |n| > 3 or non-integer exponent, and a part of order >= 2 is non-zero.".into()
+        "generated: (type, kind in {powi, powf, powd, 4 relation templates}, exponent from strata: powi -10..10, the special cases 0,1,2,3, the i32-overflow thresholds of n(n-1) (46341+-2) and n(n-1)(n-2) (1291+-2), +-2^k up to 2^30, random up to 2^30; powf 0, 1, 2 each +-{1,2,4} ulp, 2 +- fractions of epsilon, +-eps, denormal, negative, non-integer, integer-valued, 3 +- 1e-9, large up to +-300, half-integers, huge +-10^3..10^300 (f32: 10^37) both at a base ~ 1 and at a fixed base 0.5/0.9/1e-3/0.999 (or its reciprocal) where the power and all its derivatives underflow to 0; base x = +-exp(t/n) with t in [-30,30] so that x^n stays representable; negative bases with integer exponents; powd with an arbitrary dual exponent). Oracle: generalized binomial Taylor data t_k = C(n,k) x^(n-k) in the reference algebra (powd: exp(y ln x)) with the rounding bound of the library's x^(n-3) x x x scheme and |n| units for repeated squaring; relation templates additionally compare the library results with each other (tolerance 32 u (e_a+e_b)). Non-trivial: |n| > 3 or non-integer exponent, and a part of order >= 2 is non-zero.".into()
     }
     fn assumptions() -> Vec<String> {
         vec![
